@@ -73,6 +73,12 @@ CHECKS.update({
               "a failing task is one that raises; a worker killed outright is outside the property"),
 })
 
+CHECKS.update({
+    "C15": _t("model_checking", "6/C15", "TLA+ ParLoop (disjoint writes => schedule independence) model-checked with TLC + per-mode TLC trace validation (TraceLabelling, TraceMetrics) + TLC memo table across modes and thread counts",
+              "ParLoop proves the table is independent of thread count and interleaving because cells are written by exactly one thread (and exhibits the lost update for a shared accumulator). The same batch of kernel inputs and complete runs is executed in separate processes for JIT disabled, Numba not importable and JIT with 1/2/4/8/16 threads; every record must satisfy the specification on its own and the memo specification demands equal labels/cost, bit-identical tables across thread counts and equal labels of complete runs.",
+              "Numba thread interleavings are unobservable; only results are compared"),
+})
+
 PENDING_REASON = "check not built yet in this round (planned in DESIGN.md section 6); not claimed"
 
 
@@ -122,7 +128,7 @@ def main():
 
 
 SOURCE_COMMITS = ["5d3c2c3", "6e4f46b"]
-FIX_COMMITS = ["84b773b", "5ef812d", "4fe1bb6", "c7c2170", "91550fd", "d50e1da"]
+FIX_COMMITS = ["84b773b", "5ef812d", "4fe1bb6", "c7c2170", "91550fd", "d50e1da", "211358d"]
 NA = {}
 
 if __name__ == "__main__":
